@@ -216,10 +216,31 @@ Clauses(E) ==
                  \/ IF E.how = "strip" THEN Strip(ObsC(tgt)) = Strip(Sem(E.d, BagAfter(E)[tgt]))
                     ELSE ObsC(tgt) = Sem(E.d, BagAfter(E)[tgt]) ]
 
+(* Named deviations (known findings, DESIGN 9): the specification says which documented deviation of
+   the implementation, if any, explains a failing clause of this event.  A deviation is identified by
+   the class of input and the call site (its guard) and, where it is cheap, by the exact state it
+   predicts; anything else that goes wrong - including a different wrong value at the same call -
+   stays unexplained and is reported as a violation. *)
+DevFor(E, cl) ==
+  LET op == Ev.op IN
+  IF op = "IAdd" /\ cl = "unchanged" /\ E.exc /\ ~Ok
+     /\ RootCompat(pool[Ev.a].d, pool[Ev.b].d) /\ ChSlots \subseteq {Ev.a}
+    THEN "Dev_IAddNestedNonAtomic"
+  ELSE IF op = "FillNumpy" /\ cl \in {"state", "sem"} /\ Ok
+          /\ Strip(ObsC(E.tgt)) = Strip(FoldFillM(pool[Ev.s].c, pool[Ev.s].d, Ev.rows, NumpyWs, "npsum"))
+    THEN "Dev_SumNumpyDropsNaN"
+  ELSE IF op = "FillNumpy" /\ cl \in {"state", "sem", "outcome", "unchanged", "wf"}
+          /\ Ev.wf \in {"one", "scalar"} /\ LeadCount(pool[Ev.s].d)
+    THEN "Dev_LeadingCountScalarWeight"
+  ELSE IF op = "Reload" /\ cl = "flags" /\ Ok /\ Ev.strict /\ ~Ev.fixpoint
+          /\ EmptySparseNamed(pool[Ev.a].c, pool[Ev.a].d)
+    THEN "Dev_ReloadedEmptySparseLosesChildName"
+  ELSE ""
+
 ClauseNames == {"outcome", "shape", "budget", "state", "unchanged", "frame", "identity", "noshare", "wf", "flags", "sem"}
 
 Report(E, cl) ==
-  PrintT(ToJson([t |-> T.id, l |-> l, op |-> Ev.op, cl |-> cl,
+  PrintT(ToJson([t |-> T.id, l |-> l, op |-> Ev.op, cl |-> cl, dev |-> DevFor(E, cl),
                  exp |-> IF cl \in {"state", "sem"} /\ E.how \in {"det", "strip"} THEN <<E.c>> ELSE <<>>,
                  obs |-> IF cl \in {"state", "sem", "wf", "shape"} /\ E.tgt # 0 THEN <<ObsC(E.tgt)>> ELSE <<>>]))
 
